@@ -879,6 +879,21 @@ mod search_admission {
                 if stored.as_ref() != shadow.get(&key) {
                     panic!("VERIF-SEARCH-HIT C05/request/retrieve_returns_exactly_the_stored_bytes_or_nothing key[0]={} stored_len={:?} expected_len={:?}", key[0], stored.as_ref().map(|v| v.len()), shadow.get(&key).map(|v| v.len()));
                 }
+                // the engine's own store path (DhtCoreEngine::store) applies the same cap
+                if round % 5 == 0 {
+                    let skey = { let mut k = [0u8; 32]; k[0] = 200 + (round % 7) as u8; k };
+                    let slen = [512usize, 513, 1024, 2000][r.below(4) as usize];
+                    let res = e.store(&DhtKey::from_bytes(skey), vec![7u8; slen]).await;
+                    if slen > 512 && res.is_ok() {
+                        panic!("VERIF-SEARCH-HIT C05/store_path/the_engine_refuses_a_value_over_512_bytes_and_leaves_the_store_untouched DhtCoreEngine::store accepted {} bytes", slen);
+                    }
+                    let back = e.handle_request(DhtRequestWrapper { id: id.clone(), message: DhtMessage::Retrieve { key: DhtKey::from_bytes(skey), consistency: ConsistencyLevel::One } }).await;
+                    if let DhtResponse::RetrieveReply { value: Some(v) } = back.response {
+                        if v.len() > 512 {
+                            panic!("VERIF-SEARCH-HIT C05/store_path/the_engine_refuses_a_value_over_512_bytes_and_leaves_the_store_untouched store({} bytes) then Retrieve returns {} bytes", slen, v.len());
+                        }
+                    }
+                }
                 // any other request kind leaves the store as it was (only Store writes)
                 let other_len = [0usize, 100, 512, 513, 4096][r.below(5) as usize];
                 let other_val: Vec<u8> = vec![0xA5; other_len];
